@@ -228,4 +228,58 @@ theorem newAccessCtx_parts {al bl : List Entry} {a : Access} (h : newAccessCtx a
       subst h
       exact ⟨rfl, rfl⟩
 
+/-! ### projections of the decision functions -/
+
+theorem isBlockedIP_fst (a : Access) (ip : IP) :
+    (a.isBlockedIP ip).1 = if a.allowlistMode then !addrHit a.allowed ip else addrHit a.blocked ip := by
+  unfold Access.isBlockedIP addrHit
+  cases hm : a.allowlistMode <;> simp only [if_true, if_false, Bool.false_eq_true]
+  · cases h1 : a.blocked.ips.contains ip <;>
+    cases h2 : a.blocked.nets.any (fun ipnet => ipnet.contains ip.withoutZone) <;>
+    simp only [if_true, if_false, Bool.false_eq_true, Bool.or_self, Bool.or_true, Bool.or_false,
+      Bool.not_true]
+  · cases h1 : a.allowed.ips.contains ip <;>
+    cases h2 : a.allowed.nets.any (fun ipnet => ipnet.contains ip.withoutZone) <;>
+    simp only [if_true, if_false, Bool.false_eq_true, Bool.or_self, Bool.or_true, Bool.or_false,
+      Bool.not_true]
+
+theorem isBlockedClient_fst (a : Access) (ip : IP) (id : Bytes) :
+    (a.isBlockedClient ip id).1 =
+      if a.allowlistMode then (ip.isValid && (a.isBlockedIP ip).1) && a.isBlockedClientID id
+      else (ip.isValid && (a.isBlockedIP ip).1) || a.isBlockedClientID id := by
+  unfold Access.isBlockedClient
+  cases hv : ip.isValid <;> cases hm : a.allowlistMode <;>
+    cases hc : a.isBlockedClientID id <;> cases hi : (a.isBlockedIP ip).1 <;> simp [hi]
+
+theorem isBlockedClientID_eq {al bl : List Entry} {a : Access} (h : newAccessCtx al bl = .ok a)
+    (id : Bytes) :
+    a.isBlockedClientID id = if !al.isEmpty then !idListed al id else idListed bl id := by
+  obtain ⟨ha, hb⟩ := newAccessCtx_parts h
+  unfold Access.isBlockedClientID
+  simp only [allowlistMode_eq h]
+  by_cases hid : id = []
+  · subst hid
+    cases al.isEmpty <;> simp [idListed]
+  · simp only [hid, if_false, idsContains_eq_idListed ha hid, idsContains_eq_idListed hb hid]
+
+/-- The decision of `IsBlockedClient` in terms of the two lists as written,
+for every address including the zero `netip.Addr`. -/
+theorem decision_general {al bl : List Entry} {a : Access} (h : newAccessCtx al bl = .ok a)
+    (ip : IP) (id : Bytes) :
+    (a.isBlockedClient ip id).1 =
+      if !al.isEmpty then (ip.isValid && !addrListed al ip) && !idListed al id
+      else addrListed bl ip || idListed bl id := by
+  obtain ⟨ha, hb⟩ := newAccessCtx_parts h
+  rw [isBlockedClient_fst, isBlockedIP_fst, isBlockedClientID_eq h, allowlistMode_eq h]
+  cases hv : ip.isValid
+  · have h1 : addrListed bl ip = false := by simp [addrListed, hv]
+    cases al.isEmpty <;> simp [h1]
+  · rw [addrHit_eq_addrListed ha hv, addrHit_eq_addrListed hb hv]
+    cases al.isEmpty <;> simp
+
+/-- What the model produces for one request: the observation the spec judges. -/
+def modelObs (a : Access) (r : Request) : Obs :=
+  { blocked := (a.isBlockedClient r.addr (match r.clientID with | .ok id => id | .error _ => [])).1
+    action := (handleBefore a r).1 }
+
 end AGH.C03
